@@ -1,8 +1,8 @@
 (* C18: distances, gradients and wrapping of variable values form a consistent metric.
    Statements only (proofs in ValueProofs.v); all over the real-number instance of the model. *)
-From Coq Require Import ZArith List Bool Reals Lra.
+From Coq Require Import ZArith List Bool Reals Lra Lia.
 From Coquelicot Require Import Coquelicot.
-From CV Require Import Base.Num Base.RNum C18.ValueModel C18.ValueProofs.
+From CV Require Import Base.Num Base.RNum C18.ValueModel C18.ValueProofs C18.GradProofs C18.ExtraProofs.
 Import ListNotations.
 Local Open Scope R_scope.
 
@@ -97,6 +97,37 @@ Theorem C18_wrap_range : forall c P x : R, 0 < P ->
 Proof. intros c P x HP; split; [apply cvc_wrap_range; auto | split; [apply cvc_wrap_equiv | apply cvc_wrap_idem; auto]]. Qed.
 Print Assumptions C18_wrap_range.
 
+(* ---- wrapping and distance of a periodic variable whose component parameters change at run time
+   (modifycvcs): after EVERY history of modifications and calls, wrap lands in the one-period interval
+   around the wrapping centre IN FORCE (that of the last modification), on an equivalent value under the
+   period in force, and is the identity inside that interval; the distance and its gradient are invariant
+   under whole periods of the period in force.  The state reached by the model is the last modification. ---- *)
+Theorem C18_object_state_is_last_modification : forall (s : pvar (T:=R)) (h : list pv_op),
+  fst (pv_run Rops s h) = pv_in_force s h.
+Proof. exact (pv_run_state Rops). Qed.
+Print Assumptions C18_object_state_is_last_modification.
+
+Theorem C18_object_wrap_follows_history : forall (s : pvar (T:=R)) (h : list pv_op) (x : R),
+  let s' := pv_in_force s h in
+  0 < pv_P s' ->
+  exists y, snd (pv_run Rops s (h ++ [PvWrap x])) = snd (pv_run Rops s h) ++ [[y]] /\
+    pv_c s' - pv_P s' / 2 <= y < pv_c s' + pv_P s' / 2 /\ (exists n : Z, y = x - IZR n * pv_P s') /\
+    (pv_c s' - pv_P s' / 2 <= x < pv_c s' + pv_P s' / 2 -> y = x).
+Proof. exact pv_history_wrap. Qed.
+Print Assumptions C18_object_wrap_follows_history.
+
+Theorem C18_object_dist2_follows_history : forall (s : pvar (T:=R)) (h : list pv_op) (x1 x2 : R) (n m : Z),
+  let s' := pv_in_force s h in
+  0 < pv_P s' ->
+  snd (pv_run Rops s (h ++ [PvDist2 (x1 + IZR n * pv_P s') (x2 + IZR m * pv_P s')])) =
+  snd (pv_run Rops s (h ++ [PvDist2 x1 x2])).
+Proof. exact pv_history_dist2. Qed.
+Print Assumptions C18_object_dist2_follows_history.
+
+Example C18_example_object_history :
+  pv_in_force {| pv_P := 10; pv_c := 0 |} [PvWrap 13; PvModify 25 3; PvDist2 1 2] = {| pv_P := 25; pv_c := 3 |} /\ 0 < 25.
+Proof. split; [reflexivity | lra]. Qed.
+
 (* ---- interpolation ---- *)
 Theorem C18_interpolate_endpoints : forall (x1 x2 : R) (a b : vec3) (l1 l2 : list R), length l1 = length l2 ->
   sc_interp Rops x1 x2 0 = x1 /\ sc_interp Rops x1 x2 1 = x2 /\
@@ -116,3 +147,240 @@ Print Assumptions C18_interpolate_unit_on_manifold.
 (* non-vacuity *)
 Example C18_example_unit : is_unit (0, 1, 0) /\ q_unit (1, 0, 0, 0) /\ (0 < 360).
 Proof. unfold is_unit, q_unit, v3norm2, v3dot, qdot; cbn. repeat split; lra. Qed.
+
+(* =====================================================================================================
+   Extensions
+   ===================================================================================================== *)
+
+(* ---- gradient = tangent derivative for unit vectors and quaternions.
+   Non-singularity guards (explicit):
+     uv_nonsingular v1 v2 :=  -1 < v1.v2 < 1  /\  (v1.v2 <= 0 \/ 1e-28 <= 1 - (v1.v2)^2)
+        (not coincident, not antipodal, and outside the implementation's null-gradient threshold);
+     q_nonsingular q1 q2  :=  -1 < q1.q2 < 1  /\  q1.q2 <> 0  /\  1e-14 <= sqrt(1 - (q1.q2)^2)
+        (not equivalent, not at the switch of the shorter geodesic, outside the null-gradient threshold).
+   Curve form: for EVERY differentiable curve through the first argument (for quaternions: with velocity tangent
+   to the sphere, which every curve on the manifold has) the derivative of the squared distance at the first
+   argument is <gradient reported by the code, velocity>.  Line form: along t |-> apply_constraints(v1 + t e). ---- *)
+Theorem C18_unitvector_grad_is_tangent_derivative : forall (v1 v2 e : vec3),
+  is_unit v1 -> v3dot Rops v1 e = 0 -> uv_nonsingular v1 v2 ->
+  is_derive (fun t => uv_dist2 Rops (uv_constrain Rops (v3add Rops v1 (v3scale Rops t e))) v2) 0
+            (v3dot Rops (uv_grad Rops v1 v2) e).
+Proof. exact uv_grad_line_derive. Qed.
+Print Assumptions C18_unitvector_grad_is_tangent_derivative.
+Theorem C18_unitvector_grad_is_derivative_along_curves : forall (x y z : R -> R) (ex ey ez : R) (v2 : vec3),
+  is_derive x 0 ex -> is_derive y 0 ey -> is_derive z 0 ez ->
+  uv_nonsingular (x 0, y 0, z 0) v2 ->
+  is_derive (fun t => uv_dist2 Rops (x t, y t, z t) v2) 0 (v3dot Rops (uv_grad Rops (x 0, y 0, z 0) v2) (ex, ey, ez)).
+Proof. exact uv_grad_curve_derive. Qed.
+Print Assumptions C18_unitvector_grad_is_derivative_along_curves.
+Theorem C18_quaternion_grad_is_tangent_derivative : forall (q1 q2 e : quat),
+  q_unit q1 -> qdot Rops q1 e = 0 -> q_nonsingular q1 q2 ->
+  is_derive (fun t => q_dist2 Rops PI (q_constrain Rops (qadd Rops q1 (qscale Rops t e))) q2) 0
+            (qdot Rops (q_grad Rops PI q1 q2) e).
+Proof. exact q_grad_line_derive. Qed.
+Print Assumptions C18_quaternion_grad_is_tangent_derivative.
+Theorem C18_quaternion_grad_is_derivative_along_curves : forall (a0 a1 a2 a3 : R -> R) (e0 e1 e2 e3 : R) (q2 : quat),
+  is_derive a0 0 e0 -> is_derive a1 0 e1 -> is_derive a2 0 e2 -> is_derive a3 0 e3 ->
+  qdot Rops (a0 0, a1 0, a2 0, a3 0) (e0, e1, e2, e3) = 0 ->
+  q_nonsingular (a0 0, a1 0, a2 0, a3 0) q2 ->
+  is_derive (fun t => q_dist2 Rops PI (a0 t, a1 t, a2 t, a3 t) q2) 0
+            (qdot Rops (q_grad Rops PI (a0 0, a1 0, a2 0, a3 0) q2) (e0, e1, e2, e3)).
+Proof. exact q_grad_curve_derive. Qed.
+Print Assumptions C18_quaternion_grad_is_derivative_along_curves.
+(* premises are satisfiable: perpendicular unit vectors; quaternions at inner product 1/2 (positive branch) and -1/2 (negative branch) *)
+Example C18_example_uv_nonsingular :
+  is_unit (1, 0, 0) /\ v3dot Rops (1, 0, 0) (0, 0, 1) = 0 /\ uv_nonsingular (1, 0, 0) (0, 1, 0).
+Proof.
+  unfold is_unit, uv_nonsingular, v3norm2, v3dot; cbn. repeat split; try lra.
+Qed.
+Example C18_example_q_nonsingular :
+  q_unit (1, 0, 0, 0) /\ qdot Rops (1, 0, 0, 0) (0, 0, 0, 1) = 0 /\
+  q_nonsingular (1, 0, 0, 0) (1 / 2, sqrt 3 / 2, 0, 0) /\ q_nonsingular (1, 0, 0, 0) (- (1 / 2), sqrt 3 / 2, 0, 0).
+Proof.
+  assert (Hs : 1 / IZR 100000000000000 <= sqrt (1 - 1 / 2 * (1 / 2))).
+  { apply Rle_trans with (1 / 2); [lra|]. replace (1 / 2) with (sqrt (1 / 4)) at 1.
+    - apply sqrt_le_1; lra.
+    - replace (1 / 4) with ((1 / 2) * (1 / 2)) by lra. apply sqrt_square; lra. }
+  unfold q_unit, q_nonsingular, qdot; cbn. repeat split; try lra.
+  - replace (1 * (1 / 2) + 0 * (sqrt 3 / 2) + 0 * 0 + 0 * 0) with (1 / 2) by ring. exact Hs.
+  - replace (1 * - (1 / 2) + 0 * (sqrt 3 / 2) + 0 * 0 + 0 * 0) with (- (1 / 2)) by ring.
+    replace (1 - - (1 / 2) * - (1 / 2)) with (1 - 1 / 2 * (1 / 2)) by ring. exact Hs.
+Qed.
+
+(* ---- generic vector (colvarvalue::dist2_grad for type_vector; cartesian, distancePairs): every component of the
+   reported gradient is the partial derivative ---- *)
+Theorem C18_vector_grad_is_derivative : forall (l1 l2 : list R) (i : nat), length l1 = length l2 -> (i < length l1)%nat ->
+  is_derive (fun t => vec_dist2 Rops (upd l1 i t) l2) (nth i l1 0) (nth i (vec_grad Rops l1 l2) 0).
+Proof. exact vec_grad_derive. Qed.
+Print Assumptions C18_vector_grad_is_derivative.
+Example C18_example_vector_index : length [1; 2] = length [3; 4] /\ (1 < length [1; 2])%nat.
+Proof. cbn. split; [reflexivity | lia]. Qed.
+
+(* ---- apply_constraints: lands on the manifold, fixes the manifold pointwise, idempotent ---- *)
+Theorem C18_apply_constraints : forall (v : vec3) (q : quat),
+  (v3norm2 Rops v <> 0 -> is_unit (uv_constrain Rops v) /\ uv_constrain Rops (uv_constrain Rops v) = uv_constrain Rops v) /\
+  (is_unit v -> uv_constrain Rops v = v) /\
+  (qnorm2 Rops q <> 0 -> q_unit (q_constrain Rops q) /\ q_constrain Rops (q_constrain Rops q) = q_constrain Rops q) /\
+  (q_unit q -> q_constrain Rops q = q).
+Proof.
+  intros v q. split; [intros H; split; [apply uv_constrain_unit | apply uv_constrain_idem]; exact H|].
+  split; [apply uv_constrain_fix|]. split; [intros H; split; [apply q_constrain_unit | apply q_constrain_idem]; exact H|].
+  apply q_constrain_fix.
+Qed.
+Print Assumptions C18_apply_constraints.
+Example C18_example_constrain : v3norm2 Rops (3, 0, 4) <> 0 /\ qnorm2 Rops (1, 1, 1, 1) <> 0.
+Proof. unfold v3norm2, v3dot, qnorm2, qdot; cbn. split; lra. Qed.
+
+(* ---- quaternion interpolation (apply_constraints of the linear combination; NO sign alignment of the end points):
+   both end points are reached, the result is a unit quaternion whenever the linear combination is non-zero, in particular
+   whenever the implementation does not raise its documented "undefined" error (same for unit vectors) ---- *)
+Theorem C18_interpolate_quaternion_on_manifold : forall (q1 q2 : quat) (l : R),
+  (q_unit q1 -> q_interp Rops q1 q2 0 = q1) /\ (q_unit q2 -> q_interp Rops q1 q2 1 = q2) /\
+  (qnorm2 Rops (q_lin Rops q1 q2 l) <> 0 -> q_unit (q_interp Rops q1 q2 l)) /\
+  (q_interp_undefined Rops PI q1 q2 l = false -> q_unit (q_interp Rops q1 q2 l)).
+Proof.
+  intros q1 q2 l. split; [apply q_interp_0|]. split; [apply q_interp_1|]. split; [apply q_interp_unit | apply q_interp_defined_unit].
+Qed.
+Print Assumptions C18_interpolate_quaternion_on_manifold.
+Theorem C18_interpolate_unit_defined_on_manifold : forall (a b : vec3) (l : R),
+  uv_interp Rops a b l = uv_constrain Rops (v3_interp Rops a b l) /\
+  (uv_interp_undefined Rops a b l = false -> is_unit (uv_interp Rops a b l)).
+Proof. intros a b l. split; [apply uv_interp_is_constrain | apply uv_interp_defined_unit]. Qed.
+Print Assumptions C18_interpolate_unit_defined_on_manifold.
+(* the implementation's undefined-result test passes (no error) half-way between two perpendicular quaternions *)
+Example C18_example_q_interp_defined : q_interp_undefined Rops PI (1, 0, 0, 0) (0, 1, 0, 0) (1 / 2) = false.
+Proof.
+  unfold q_interp_undefined. apply negb_false_iff. cbn [nleb ndiv nsqrt Rops]. apply Rleb_true.
+  assert (En : qnorm2 Rops (q_lin Rops (1, 0, 0, 0) (0, 1, 0, 0) (1 / 2)) = 1 / 2)
+    by (unfold qnorm2, qdot, q_lin, qadd, qscale; cbn; field).
+  assert (Ed : q_dist2 Rops PI (1, 0, 0, 0) (0, 1, 0, 0) = (PI / 2) * (PI / 2)).
+  { rewrite q_dist2_qd2. assert (qdot Rops (1, 0, 0, 0) (0, 1, 0, 0) = 0) as -> by (unfold qdot; cbn; ring).
+    unfold qd2. replace (Rltb 0 0) with false by (symmetry; apply Rltb_false; lra).
+    rewrite clamp1_id by lra. rewrite acos_0. field. }
+  rewrite En, Ed. pose proof PI_RGT_0 as Hp. pose proof PI_4 as Hp4.
+  rewrite sqrt_square by lra.
+  assert (H1 : 1 / 2 <= sqrt (1 / 2)).
+  { replace (1 / 2) with (sqrt (1 / 4)) at 1 by (replace (1 / 4) with ((1 / 2) * (1 / 2)) by lra; apply sqrt_square; lra).
+    apply sqrt_le_1; lra. }
+  unfold tiny6; cbn [ndiv n1 nofZ Rops].
+  apply Rle_trans with ((1 / 2) / 2); [lra|].
+  unfold Rdiv at 1 3. apply Rmult_le_compat; try lra.
+  apply Rinv_le_contravar; lra.
+Qed.
+Example C18_example_q_lin_nonzero : qnorm2 Rops (q_lin Rops (1, 0, 0, 0) (0, 1, 0, 0) (1 / 2)) <> 0.
+Proof. unfold qnorm2, qdot, q_lin, qadd, qscale; cbn. lra. Qed.
+
+(* ---- dist2_rgrad (gradient with respect to the SECOND argument), per type: it is the derivative with respect to the second
+   argument; for the flat types it equals minus the left gradient, for a periodic scalar off the half-period cut (on the cut
+   both are -P), for the manifold types it is NOT minus the left gradient (it is tangent at the second argument) ---- *)
+Theorem C18_rgrad_is_derivative_in_second_argument :
+  (forall x1 x2 : R, is_derive (fun y => sc_dist2 Rops x1 y) x2 (sc_rgrad Rops x1 x2)) /\
+  (forall P x1 x2 : R, 0 < P -> pdiff Rops P (x2 - x1) <> - P / 2 ->
+     is_derive (fun y => per_dist2 Rops P x1 y) x2 (per_rgrad Rops P x1 x2)) /\
+  (forall (a : vec3) (bx by_ bz : R),
+     is_derive (fun t => v3_dist2 Rops a (t, by_, bz)) bx (fst (fst (v3_rgrad Rops a (bx, by_, bz)))) /\
+     is_derive (fun t => v3_dist2 Rops a (bx, t, bz)) by_ (snd (fst (v3_rgrad Rops a (bx, by_, bz)))) /\
+     is_derive (fun t => v3_dist2 Rops a (bx, by_, t)) bz (snd (v3_rgrad Rops a (bx, by_, bz)))) /\
+  (forall (l1 l2 : list R) (i : nat), length l1 = length l2 -> (i < length l2)%nat ->
+     is_derive (fun t => vec_dist2 Rops l1 (upd l2 i t)) (nth i l2 0) (nth i (vec_rgrad Rops l1 l2) 0)) /\
+  (forall (x y z : R -> R) (ex ey ez : R) (v1 : vec3),
+     is_derive x 0 ex -> is_derive y 0 ey -> is_derive z 0 ez -> uv_nonsingular (x 0, y 0, z 0) v1 ->
+     is_derive (fun t => uv_dist2 Rops v1 (x t, y t, z t)) 0 (v3dot Rops (uv_rgrad Rops v1 (x 0, y 0, z 0)) (ex, ey, ez))) /\
+  (forall (a0 a1 a2 a3 : R -> R) (e0 e1 e2 e3 : R) (q1 : quat),
+     is_derive a0 0 e0 -> is_derive a1 0 e1 -> is_derive a2 0 e2 -> is_derive a3 0 e3 ->
+     qdot Rops (a0 0, a1 0, a2 0, a3 0) (e0, e1, e2, e3) = 0 -> q_nonsingular (a0 0, a1 0, a2 0, a3 0) q1 ->
+     is_derive (fun t => q_dist2 Rops PI q1 (a0 t, a1 t, a2 t, a3 t)) 0
+               (qdot Rops (q_rgrad Rops PI q1 (a0 0, a1 0, a2 0, a3 0)) (e0, e1, e2, e3))).
+Proof.
+  split; [exact sc_rgrad_derive|]. split; [exact per_rgrad_derive|].
+  split; [intros a bx by_ bz; split; [apply v3_rgrad_derive_x | split; [apply v3_rgrad_derive_y | apply v3_rgrad_derive_z]]|].
+  split; [exact vec_rgrad_derive|]. split; [exact uv_rgrad_curve_derive | exact q_rgrad_curve_derive].
+Qed.
+Print Assumptions C18_rgrad_is_derivative_in_second_argument.
+Theorem C18_rgrad_vs_minus_lgrad :
+  (forall x1 x2 : R, sc_rgrad Rops x1 x2 = - sc_grad Rops x1 x2) /\
+  (forall a b : vec3, v3_rgrad Rops a b = v3scale Rops (-1) (v3_grad Rops a b)) /\
+  (forall P x1 x2 : R, 0 < P -> pdiff Rops P (x1 - x2) <> - P / 2 -> per_rgrad Rops P x1 x2 = - per_grad Rops P x1 x2) /\
+  (forall P x1 x2 : R, 0 < P -> pdiff Rops P (x1 - x2) = - P / 2 -> per_rgrad Rops P x1 x2 = - P /\ per_grad Rops P x1 x2 = - P) /\
+  (exists a b : vec3, is_unit a /\ is_unit b /\ uv_rgrad Rops a b <> v3scale Rops (-1) (uv_grad Rops a b)).
+Proof.
+  split; [exact sc_rgrad_minus|]. split; [exact v3_rgrad_minus|]. split; [exact per_rgrad_minus|].
+  split; [exact per_rgrad_on_cut | exact uv_rgrad_not_minus_lgrad].
+Qed.
+Print Assumptions C18_rgrad_vs_minus_lgrad.
+Example C18_example_cut : 0 < 360 /\ pdiff Rops 360 (190 - 10) = - 360 / 2 /\ pdiff Rops 360 (20 - 10) <> - 360 / 2.
+Proof.
+  split; [lra|]. split.
+  - apply (pdiff_unique 360 _ _ 1); simpl; lra.
+  - assert (pdiff Rops 360 (20 - 10) = 10) as -> by (apply (pdiff_unique 360 _ 10 0); simpl; lra). lra.
+Qed.
+
+(* ---- the components of this build, through colvar::dist2/dist2_lgrad/dist2_rgrad/wrap of a single-component variable
+   (comp_kind: which modelled function, which period/centre): symmetric distance, right gradient = left gradient with the
+   arguments exchanged, wrap = identity on every non-periodic kind and the equivalent value in [c-P/2, c+P/2) on a periodic
+   one, and wrapping both arguments never changes the distance or the gradient ---- *)
+Theorem C18_component_dispatch : forall (k : comp_kind) (a b : cval), comp_ok k ->
+  comp_dist2 Rops PI k a b = comp_dist2 Rops PI k b a /\
+  comp_rgrad Rops PI k a b = comp_lgrad Rops PI k b a /\
+  comp_dist2 Rops PI k (comp_wrap Rops k a) (comp_wrap Rops k b) = comp_dist2 Rops PI k a b /\
+  comp_lgrad Rops PI k (comp_wrap Rops k a) (comp_wrap Rops k b) = comp_lgrad Rops PI k a b /\
+  match k, a with
+  | KPeriodic P c, VS x => exists y, comp_wrap Rops k a = VS y /\ c - P / 2 <= y < c + P / 2 /\ (exists n : Z, y = x - IZR n * P)
+  | _, _ => comp_wrap Rops k a = a
+  end.
+Proof.
+  intros k a b Hk. split; [apply comp_dist2_sym; exact Hk|]. split; [apply comp_rgrad_is_swapped_lgrad|].
+  destruct (comp_wrap_dist2 k a b Hk) as [E1 E2]. split; [exact E1|]. split; [exact E2|]. apply comp_wrap_spec; exact Hk.
+Qed.
+Print Assumptions C18_component_dispatch.
+Example C18_example_comp_ok : comp_ok (KPeriodic 360 (-180)) /\ comp_ok (KVec3 true (Some (8, 8, 16))) /\ comp_ok (KQuat (T:=R)).
+Proof. cbn. repeat split; lra. Qed.
+
+(* ---- wrap commutes with dist2 (and with the gradient), for any two wrapping centres, and after EVERY history of
+   run-time parameter changes on a periodic variable ---- *)
+Theorem C18_wrap_commutes_with_dist2 : forall c1 c2 P x y : R, 0 < P ->
+  per_dist2 Rops P (cvc_wrap Rops c1 P x) (cvc_wrap Rops c2 P y) = per_dist2 Rops P x y /\
+  per_grad Rops P (cvc_wrap Rops c1 P x) (cvc_wrap Rops c2 P y) = per_grad Rops P x y.
+Proof. exact wrap_dist2_both. Qed.
+Print Assumptions C18_wrap_commutes_with_dist2.
+Theorem C18_object_wrap_commutes_with_dist2 : forall (s : pvar (T:=R)) (h : list pv_op) (x1 x2 : R),
+  let s' := pv_in_force s h in
+  0 < pv_P s' ->
+  snd (pv_run Rops s (h ++ [PvDist2 (cvc_wrap Rops (pv_c s') (pv_P s') x1) (cvc_wrap Rops (pv_c s') (pv_P s') x2)])) =
+  snd (pv_run Rops s (h ++ [PvDist2 x1 x2])) /\
+  pv_wrapped_dist2 Rops s' x1 x2 = [per_dist2 Rops (pv_P s') x1 x2; per_grad Rops (pv_P s') x1 x2].
+Proof. exact pv_history_wrap_dist2. Qed.
+Print Assumptions C18_object_wrap_commutes_with_dist2.
+
+(* ---- biases that wrap their centres see equivalent values: the moving restraint's centre (interpolate, then colvar::wrap)
+   and the centre of two merged OPES kernels ---- *)
+Theorem C18_moving_restraint_centre_equivalent : forall c P x0 x1 l x : R, 0 < P ->
+  c - P / 2 <= mr_center Rops c P x0 x1 l < c + P / 2 /\
+  per_dist2 Rops P x (mr_center Rops c P x0 x1 l) = per_dist2 Rops P x (sc_interp Rops x0 x1 l) /\
+  per_grad Rops P x (mr_center Rops c P x0 x1 l) = per_grad Rops P x (sc_interp Rops x0 x1 l) /\
+  per_dist2 Rops P (mr_center Rops c P x0 x1 0) x0 = 0 /\ per_dist2 Rops P (mr_center Rops c P x0 x1 1) x1 = 0.
+Proof. exact mr_center_props. Qed.
+Print Assumptions C18_moving_restraint_centre_equivalent.
+Theorem C18_opes_merged_centre_equivalent : forall (c P h1 k1 h2 k2 : R) (n m : Z), 0 < P -> h1 + h2 <> 0 ->
+  opes_merge_center Rops c P h1 (k1 + IZR n * P) h2 (k2 + IZR m * P) = opes_merge_center Rops c P h1 k1 h2 k2 /\
+  c - P / 2 <= opes_merge_center Rops c P h1 k1 h2 k2 < c + P / 2.
+Proof. intros c P h1 k1 h2 k2 n m HP Hh. split; [apply opes_merge_center_period; assumption | apply opes_merge_center_range; exact HP]. Qed.
+Print Assumptions C18_opes_merged_centre_equivalent.
+Example C18_example_opes : 0 < 360 /\ 1 + 2 <> 0.
+Proof. split; lra. Qed.
+(* interpolation of a periodic scalar is plain linear interpolation (it does not take the shortest image): behaviour, see NOTES.md *)
+Theorem C18_periodic_interpolation_is_linear : exists P x0 x1 l : R, 0 < P /\ 0 <= l <= 1 /\
+  per_dist2 Rops P x1 x0 < per_dist2 Rops P (sc_interp Rops x0 x1 l) x0.
+Proof. exact periodic_interp_not_shortest_image. Qed.
+Print Assumptions C18_periodic_interpolation_is_linear.
+
+(* ---- inner products on the manifolds stay in [-1, 1] (the clamp in dist2 only absorbs rounding) ---- *)
+Theorem C18_inner_bounded_on_manifold : forall (a b : vec3) (p q : quat),
+  (is_unit a -> is_unit b -> -1 <= v3dot Rops a b <= 1 /\ clamp1 Rops (v3dot Rops a b) = v3dot Rops a b) /\
+  (q_unit p -> q_unit q -> -1 <= qdot Rops p q <= 1 /\ clamp1 Rops (qdot Rops p q) = qdot Rops p q).
+Proof.
+  intros a b p q. split; intros H1 H2.
+  - pose proof (unit_dot_bound a b H1 H2) as Hb. split; [exact Hb | apply clamp1_id; exact Hb].
+  - pose proof (q_dot_bound p q H1 H2) as Hb. split; [exact Hb | apply clamp1_id; exact Hb].
+Qed.
+Print Assumptions C18_inner_bounded_on_manifold.
